@@ -146,6 +146,12 @@ pub fn make_app(cfg: &Cfg, mismatch: bool) -> App {
     if cfg.bundle {
         app.replicate_bundle::<(X, Y)>();
     }
+    if cfg.owners {
+        app.replicate::<OwnedBy>();
+        if cfg.sync {
+            app.sync_related_entities::<OwnedBy>();
+        }
+    }
     if cfg.sync {
         app.sync_related_entities::<ChildOf>();
     }
